@@ -131,6 +131,20 @@ impl MemoryArea {
     }
 }
 
+#[cfg(ax_verif)]
+impl MemoryArea {
+    /// Verification hook: read-only view (start, length, access, data length, name)
+    pub fn verif_view(&self) -> (u64, u64, u32, usize, Option<String>) {
+        (
+            self.start,
+            self.length,
+            self.access,
+            self.data.len(),
+            self.name.clone(),
+        )
+    }
+}
+
 #[wasm_bindgen]
 impl Axecutor {
     // TODO: Currently cannot read consecutive sections of memory
